@@ -420,7 +420,7 @@ func errClass(err error) string {
 func (w *World) record(ev M, p *Party, cr callResult, out []M, err error) M {
 	ev["p"] = p.Name
 	ev["i"] = w.N + 1
-	for k, v := range map[string]interface{}{"plain": 0, "hi": false, "np": 0, "text": 0, "prs": false, "atk": ""} {
+	for k, v := range map[string]interface{}{"plain": 0, "hi": false, "np": 0, "text": 0, "prs": false, "atk": "", "raweq": false} {
 		if _, ok := ev[k]; !ok {
 			ev[k] = v
 		}
@@ -575,7 +575,8 @@ func (w *World) receive(p *Party, wm *WireMsg, sink bool, atk string) M {
 			pid = -4 // non-nil but empty
 		}
 	}
-	ev := M{"ev": "Recv", "m": wm.Abs, "plain": pid, "prs": prs, "np": len(plains), "hi": hi, "atk": atk}
+	raweq := len(wm.Raw) == 1 && plain != nil && bytes.Equal(plain, wm.Raw[0])
+	ev := M{"ev": "Recv", "m": wm.Abs, "plain": pid, "prs": prs, "np": len(plains), "hi": hi, "atk": atk, "raweq": raweq}
 	if w.KeepRaw {
 		ev["plainraw"] = hex.EncodeToString(plain)
 	}
